@@ -1,5 +1,7 @@
 package canvas
 
+import "math"
+
 // C10-H2: one-step induction for the path builders.  Pre-state: any well-formed path (see
 // vhPreState) with rational coordinates; one builder call with arbitrary rational arguments.
 // Post: structurally well-formed, earlier records untouched, and the pen is at the requested
@@ -166,4 +168,76 @@ func VH_C10_curve_degrade_Q() {
 		}
 	}
 	vAssert("C10.degrade.pen", vhPtEq(p.Pos(), e))
+}
+
+// C10: one step ArcTo from any well-formed pre-state.  Radii (any sign, also near zero), rotation
+// (degrees, |rot| <= 630), flags and end point symbolic.  The record must be the canonical form
+// the package documents: radii positive with rx >= ry, rotation in [0, pi), and it must describe the
+// same ellipse orientation as the arguments: either the radii in the given order and the rotation
+// congruent to rot modulo 180 degrees, or the radii swapped and the rotation congruent to rot+90
+// degrees; a circle is stored with rotation 0.  The radii are the arguments' absolute values scaled
+// by max(1, lambda), lambda being what ellipseRadiiCorrection returns (replaced in the symbolic run
+// by "any number"; natively the real function).  Zero radii give a line.  Flags and end point are
+// stored as given.
+var vhC10Lambda float64
+
+func vhC10RadiiCorr(start Point, rx, ry, phi float64, end Point) float64 { return vhC10Lambda }
+
+func VH_C10_step_arcto_Q() {
+	vStub("math.Hypot", vhHypotQ)
+	vStub("math.Mod", vhMod2Pi)
+	vStub("github.com/tdewolff/canvas.ellipseRadiiCorrection", vhC10RadiiCorr)
+	p := vhPreState(vhReal, 1, []int{vhLine, vhQuad, vhArc})
+	pre := vhCopyData(p.d)
+	x, y := vhReal(), vhReal()
+	rx, ry := vNondetF64(), vNondetF64()
+	vAssume(-8 <= rx && rx <= 8 && -8 <= ry && ry <= 8)
+	// general position for the library's tolerance decisions
+	ax, ay := math.Abs(rx), math.Abs(ry)
+	vAssume((ax == 0 || ax >= 1e-6) && (ay == 0 || ay >= 1e-6) && (ax == ay || math.Abs(ax-ay) >= 1e-6))
+	rot := vNondetF64()
+	vAssume(-630 <= rot && rot <= 630)
+	large, sweep := vNondetBool(), vNondetBool()
+	lam := vNondetF64()
+	vAssume(0 <= lam && lam <= 4)
+	vhC10Lambda = lam
+	start := Point{}
+	if len(pre) > 0 {
+		start = Point{pre[len(pre)-3], pre[len(pre)-2]}
+	}
+	p.ArcTo(rx, ry, rot, large, sweep, x, y)
+	vhCheckStep("arcto", pre, p, Point{x, y}, vhArc)
+	if vhSameData(p.d, pre) {
+		return
+	}
+	last := p.d[len(p.d)-1]
+	if ax == 0 || ay == 0 {
+		vAssert("C10.arcto.zero_radius_gives_line", last == LineToCmd || last == CloseCmd)
+		return
+	}
+	vAssert("C10.arcto.kind", last == ArcToCmd)
+	if last != ArcToCmd {
+		return
+	}
+	n := len(p.d)
+	srx, sry, sphi, sfl := p.d[n-7], p.d[n-6], p.d[n-5], p.d[n-4]
+	vAssert("C10.arcto.canonical_radii_and_rotation", srx >= sry && sry > 0 && 0 <= sphi && sphi < math.Pi)
+	vAssert("C10.arcto.flags_and_end", sfl == fromArcFlags(large, sweep) && p.d[n-3] == x && p.d[n-2] == y)
+	R, r := math.Max(ax, ay), math.Min(ax, ay)
+	// the scale actually applied: what the real function says for the canonical arguments
+	l := ellipseRadiiCorrection(start, R, r, sphi, Point{x, y})
+	if l < 1 {
+		l = 1
+	}
+	vAssert("C10.arcto.radii_are_the_arguments_scaled", vhNear(srx, R*l) && vhNear(sry, r*l))
+	if ax == ay {
+		vAssert("C10.arcto.circle_has_rotation_zero", sphi == 0)
+		return
+	}
+	base := rot * math.Pi / 180.0
+	if ax < ay {
+		base += math.Pi / 2
+	}
+	j := (sphi - base) / math.Pi
+	vAssert("C10.arcto.same_orientation_modulo_pi", math.Abs(j-math.Round(j)) <= 1e-9)
 }
